@@ -26,9 +26,13 @@ from mc.checks.c01_common import (
     JSON_FORMATS,
     SIG_JSON_KEY,
     SIG_JSON_NONFINITE,
+    SIG_JSON_RAWCHAR,
+    SIG_YAML_RAWBREAK,
     YAML_FORMATS,
     json_key_root_cause,
     json_nonfinite_root_cause,
+    json_rawchar_root_cause,
+    yaml_rawbreak_root_cause,
     judge_reparse,
     merge_formats,
     ruyaml_root_cause,
@@ -72,10 +76,60 @@ OTHER = ["z", "é"]
 SIGMA = NUM + KW + DATE + IND + WS + OTHER
 # reduced alphabets explored deeper
 FLT = ["1", ".", "e", "-", ":", "_"]  # reaches the sexagesimal float and exponent alternatives
+# characters that are legal in a str value but special to a YAML reader: the Unicode line breaks NEL / LS / PS, DEL and
+# a C1 control, a non-character, ESC, NUL, the byte order mark, the no-break space, CR - with a letter and a space
+CTL = ["\x85", "\u2028", "\u2029", "\x7f", "\x9f", "\ufffe", "\x1b", "\x00", "\ufeff", "\xa0", "\r", "a", " "]
 MID = (
     ["1", ".", "e", "-", ":", "_", "~", "null", "No", "y", "inf", "2001-01-01", "T00:00:00"]
     + ["{", "[", ",", "#", "&", "*", "!", "|", ">", "'", '"', "%", "?", " ", "\n", "z"]
 )
+
+
+# date/time-shaped strings: the slots of YAML's timestamp pattern (date, separator, time, fraction, zone), each with
+# its canonical AND its non-canonical spellings (one-digit month / day / hour, lowercase or blank separator, fraction
+# of other than six digits, short or blank-separated zone offset) and with impossible calendar dates - a second YAML
+# reader that takes an unquoted one for a timestamp re-spells it or fails on it.  Full product of the slots.
+TS_DATE = ["2001-01-01", "2001-1-1", "2001-02-30", "2001-13-45"]
+TS_SEP = ["T", "t", " ", "  "]
+TS_TIME = ["00:00:00", "1:02:03", "21:59:43", "1:02"]  # the last one lacks the seconds: not a timestamp
+TS_FRAC = ["", ".5", ".10", ".", ".123456", ".1234567"]
+TS_ZONE = ["", "Z", " -5", "-05:00", " Z", "+5", "+05"]
+TS_QUICK = {"sep": 3, "time": 2, "frac": 3, "zone": 4}  # quick tier: the first n members of the slot
+
+
+def timestamp_strings(tier):
+    """[(string, number of filled slots)] - the full product of the slots of the tier."""
+    q = TS_QUICK if tier == "quick" else {}
+    sep, time_, frac, zone = (lst[: q.get(k, len(lst))] for k, lst in
+                              (("sep", TS_SEP), ("time", TS_TIME), ("frac", TS_FRAC), ("zone", TS_ZONE)))
+    out = [(d, 1) for d in TS_DATE]
+    for d in TS_DATE:
+        out += [(d + s, 2) for s in sep]  # separator without a time: not a timestamp
+        for s, t, f, z in itertools.product(sep, time_, frac, zone):
+            out.append((d + s + t + f + z, 3 + bool(f) + bool(z)))
+    return out
+
+
+def timestamps_respelt_by_second_reader(strings):
+    """How many of the strings a second YAML reader (ruyaml, the one behind yaml_comments) would NOT give back as
+    written if they reached it unquoted: it takes them for a timestamp and re-spells them, or cannot construct the
+    date.  None when ruyaml is not installed.  (Vacuity guard of the timestamp slot product.)"""
+    import io
+
+    try:
+        import ruyaml
+    except ImportError:
+        return None
+    n = 0
+    for s in strings:
+        try:
+            y = ruyaml.YAML()
+            out = io.StringIO()
+            y.dump(y.load("v: " + s + "\n"), out)
+            n += out.getvalue() != "v: " + s + "\n"
+        except Exception:
+            n += 1
+    return n
 
 
 def _strings(alphabet, kmax):
@@ -86,18 +140,20 @@ def _strings(alphabet, kmax):
 
 def scalar_bounds(tier):
     if tier == "quick":
-        return {"SIGMA": 2, "NUM": 3, "FLT": 4}
-    return {"SIGMA": 2, "NUM": 4, "FLT": 5, "MID": 3}
+        return {"SIGMA": 2, "NUM": 3, "FLT": 4, "CTL": 2}
+    return {"SIGMA": 2, "NUM": 4, "FLT": 5, "MID": 3, "CTL": 3}
 
 
 def scalar_strings(tier):
     """All strings of the tier, simplest first (fewest tokens, then shortest), without duplicates."""
-    alph = {"SIGMA": SIGMA, "NUM": NUM, "FLT": FLT, "MID": MID}
+    alph = {"SIGMA": SIGMA, "NUM": NUM, "FLT": FLT, "MID": MID, "CTL": CTL}
     best = {}
     for name, k in scalar_bounds(tier).items():
         for s, n in _strings(alph[name], k):
             if s not in best or n < best[s]:
                 best[s] = n
+    for s, n in timestamp_strings(tier):
+        best.setdefault(s, n)
     return sorted(best, key=lambda s: (best[s], len(s), s))
 
 
@@ -162,6 +218,7 @@ def scalar_case(s, pos, mode="yaml", quick=True):
     variants = [(fmt, {"format": fmt}) for fmt in formats]
     if mode == "yaml" and pos in COMMENT_POSITIONS:
         variants.append(("yaml_comments", {"yaml_comments": True}))
+    rawbreak = False
     for fmt, kw in variants:
         od = outcome(p.dump, c, skip_none=False, **kw)
         res["ops"] += 1
@@ -181,6 +238,17 @@ def scalar_case(s, pos, mode="yaml", quick=True):
         if cls and fmt in JSON_FORMATS and mode == "yaml" and json_key_root_cause(c, c1):
             res["devs"].append((SIG_JSON_KEY, f"[{fmt}] config {short(c)} text {text!r}: {detail}"))
             continue
+        if cls and fmt in JSON_FORMATS and mode == "yaml" and json_rawchar_root_cause(p.parse_string, text, c, ()):
+            res["devs"].append((SIG_JSON_RAWCHAR, f"[{fmt}] config {short(c)} text {text!r}: {detail}"))
+            continue
+        if cls and fmt == "yaml" and yaml_rawbreak_root_cause(
+            p.parse_string, text, outcome(p.dump, c, skip_none=False, format="json").get("value"), c, ()
+        ):
+            res["devs"].append((SIG_YAML_RAWBREAK, f"[{fmt}] config {short(c)} text {text!r}: {detail}"))
+            rawbreak = True
+            continue
+        if cls and fmt == "yaml_comments" and rawbreak:
+            continue  # the text piped through ruyaml is the plain yaml dump, which already deviated for this root cause
         if cls:
             results[fmt] = cls
             details[fmt] = f"config {short(c)} text {text!r}: {detail}"
@@ -220,7 +288,25 @@ def _split_alternatives(pattern, flags):
     """Top-level alternatives of a resolver pattern of the form ^(?:a|b|...)$ (textual split, verbose aware)."""
     src = pattern
     if flags & re.X:
-        src = re.sub(r"(?<!\\)\s+", "", src)  # the tables contain no escaped whitespace / comments
+        # verbose pattern: white space is insignificant except inside a character class ([ \t]) or escaped (the
+        # tables contain no comments)
+        out, in_cls, i = "", False, 0
+        while i < len(src):
+            ch = src[i]
+            if ch == "\\":
+                out += src[i : i + 2]
+                i += 2
+                continue
+            if in_cls:
+                in_cls = ch != "]"
+            elif ch == "[":
+                in_cls = True
+            elif ch.isspace():
+                i += 1
+                continue
+            out += ch
+            i += 1
+        src = out
     m = re.fullmatch(r"\^\(\?:(.*)\)\$", src, re.S)
     if not m:
         return None
@@ -347,6 +433,10 @@ def explore(ctx):
     scalar_states = tot["accepted"]
     ctx.note(f"worker CPU seconds: scalar layer {tot['cpu']:.0f}")
     ctx.count("scalar.strings", len(strings))
+    ts = [s for s, _ in timestamp_strings(tier)]
+    ts_respelt = timestamps_respelt_by_second_reader(ts)
+    ctx.count("scalar.timestamp_shaped_strings", len(ts))
+    ctx.count("scalar.timestamp_shaped_strings_a_second_yaml_reader_would_respell_or_reject", ts_respelt or 0)
     ctx.count("scalar.strings_json_mode", len(json_mode_strings))
     ctx.count("scalar.roundtrips", scalar_rt)
     ctx.count("scalar.accepted_configs", tot["accepted"])
@@ -376,7 +466,9 @@ def explore(ctx):
         caps_hit=[],
         bounds={
             "scalar_token_bounds": scalar_bounds(tier),
-            "alphabet_sizes": {"SIGMA": len(SIGMA), "NUM": len(NUM), "FLT": len(FLT), "MID": len(MID)},
+            "alphabet_sizes": {"SIGMA": len(SIGMA), "NUM": len(NUM), "FLT": len(FLT), "MID": len(MID), "CTL": len(CTL)},
+            "timestamp_slot_product": {"date": TS_DATE, "separator": TS_SEP, "time": TS_TIME, "fraction": TS_FRAC, "zone": TS_ZONE,
+                                       "quick_takes_first": TS_QUICK, "strings": len(timestamp_strings(tier))},
             "positions": POSITIONS,
             "formats": list(YAML_FORMATS),
             "typed": typed["bounds"],
@@ -397,6 +489,7 @@ def explore(ctx):
     # vacuity guards
     ctx.require(not cov["inconsistent"], f"resolver patterns split into alternatives consistently {cov['inconsistent'][:2]}")
     ctx.require(not cov["missing"], f"every alternative of every resolver pattern is matched by an enumerated string (missing: {cov['missing'][:4]})")
+    ctx.require(ts_respelt is None or ts_respelt >= 150, f"timestamp slot product: at least 150 strings that a second YAML reader would re-spell or reject if written unquoted ({ts_respelt})")
     ctx.require(len(cov["tables"]) >= 2, "resolver tables of both the stock dumper and jsonargparse's loader were read")
     ctx.require(tot["accepted"] > 50000, "scalar layer: more than 50000 accepted (string, position) configurations")
     ctx.require(quoted > 500, "scalar layer: more than 500 strings needed quoting by the yaml dumper")
